@@ -3,6 +3,18 @@
 From NDB Require Import Base.Bytes Codec.Utf8 Codec.PropValue Codec.PropValue_proofs.
 Open Scope N_scope.
 
+(* every well-formed property value (nested lists and maps, floats as 64-bit
+   patterns incl. NaN payloads and signed zeros, strings = valid UTF-8 byte
+   strings incl. empty / non-ASCII, blobs, maps in key order, lengths < 2^32)
+   is decoded to exactly what was encoded, whatever follows it, and the decoder
+   consumes exactly the encoding *)
+Definition C25_pv_roundtrip_statement : Prop :=
+  forall v rest, wf v = true ->
+    dec_top (encode v ++ rest) = Ok (v, len (encode v)) /\ decode (encode v ++ rest) = Ok v.
+Theorem C25_pv_roundtrip : C25_pv_roundtrip_statement.
+Proof. exact roundtrip. Qed.
+Print Assumptions C25_pv_roundtrip.
+
 (* decoding any byte string yields a value or an error: never the panic outcome
    (out-of-range slice), never out of fuel, and a success consumed between 1
    and |b| bytes *)
